@@ -64,6 +64,8 @@ def observe_eigh(rng, qu, n, cplx, rep, backend, which, k, sort, gen, fn, grid="
     Br = None if B is None else U.as_rep(B, gen)
     path = _path(qu, backend, Ar, k, hassig, Br)
     kw = {"k": k, "which": which, "backend": backend, "sort": sort}
+    if which in ("SA", "TR") and rng.random() < 0.35:
+        del kw["which"]      # documented defaults: no sigma -> SA, sigma given -> TR
     if hassig:
         kw["sigma"] = sig4 / 4.0
     if Br is not None:
